@@ -22,6 +22,10 @@ PID = "C02"
 MODS = ["acryo._utils", "acryo.backend._api", "acryo.molecules.core", "acryo.loader._base", "acryo.loader._loader"]
 
 
+def zr(x):
+    return _real(lift(_coerce(x)))
+
+
 def _load(patches=None):
     stubs.patch_dask_from_delayed()
     return load.load(MODS, overrides={"Rotation": rotation.SymRotation, "da": stubs.DaStub()}, patches=patches)
@@ -358,6 +362,73 @@ def sec_plumbing2(rec, patches=None):
                 rec.query(f"plumbing2/path{i}/task{k}-axis{a}", h, tomo == want, key="C02/plumbing/molecule-k-task-k")
 
 
+def replay_batch_options(cex):
+    with load.real_modules():
+        return _replay_batch_options(cex)
+
+
+def _replay_batch_options(cex):
+    """installed library: a BatchLoader built with corner_safe / order / scale loads exactly what SubtomogramLoaders with the same options load"""
+    from acryo import BatchLoader, SubtomogramLoader, Molecules
+    from scipy.spatial.transform import Rotation
+
+    rng = np.random.default_rng(0)
+    vols = [rng.normal(size=(40, 40, 40)).astype(np.float32) for _ in range(2)]
+    bad = []
+    for order in (0, 1, 3):
+        for cs in (False, True):
+            for scale in (1.0, 0.5):
+                mols = []
+                bl = BatchLoader(order=order, scale=scale, output_shape=(11, 11, 11), corner_safe=cs)
+                for k, v in enumerate(vols):
+                    m = Molecules(np.array([[20, 20, 20], [18.3, 21.1, 19.6]]) * scale, Rotation.from_rotvec([[0.0, 0.0, 0.0], [0.3, 0.6 + 0.2 * k, -0.4]]))
+                    mols.append(m)
+                    bl.add_tomogram(v, m, image_id=k)
+                got = np.stack([np.asarray(t.compute()) for t in bl.construct_loading_tasks()])
+                want = np.concatenate([np.stack([np.asarray(t.compute()) for t in SubtomogramLoader(v, m, order=order, scale=scale, output_shape=(11, 11, 11), corner_safe=cs).construct_loading_tasks()])
+                                       for v, m in zip(vols, mols)])
+                same = got.shape == want.shape and np.allclose(np.nan_to_num(got, nan=-77.0), np.nan_to_num(want, nan=-77.0), atol=1e-5)
+                if not same:
+                    bad.append({"order": order, "corner_safe": cs, "scale": scale, "max_abs_diff": float(np.nanmax(np.abs(np.nan_to_num(got, nan=-77.0) - np.nan_to_num(want, nan=-77.0)))) if got.shape == want.shape else "shape"})
+    return len(bad) > 0, {"n": len(bad), "examples": bad[:4]}
+
+
+def sec_batch_options(rec, patches=None):
+    """the per-tomogram loaders of a BatchLoader (iteration, indexing, derived batches) carry the batch's order, scale, output_shape and corner_safe"""
+    from . import c03
+
+    L = c03._load(patches)
+    BT, MC = L["acryo.loader._batch"], L["acryo.molecules.core"]
+    rec.encodes("acryo/loader/_batch.py:LoaderAccessor.__iter__", "acryo/loader/_batch.py:LoaderAccessor.__getitem__", "acryo/loader/_batch.py:BatchLoader.replace", "acryo/loader/_batch.py:BatchLoader.__init__")
+    rec.assume("the sampling rule of a SubtomogramLoader with given (order, scale, output_shape, corner_safe) is decided in the sampling sections; here only the propagation of the options")
+    scale = real("scale")
+    hyps = [scale.e > 0]
+    with L.installed():
+        for order in (0, 1, 3):
+            for cs in (False, True):
+                tag = f"batch-options[order={order},corner_safe={cs}]"
+
+                def run():
+                    bl = BT.BatchLoader(order=order, scale=scale, output_shape=(4, 5, 6), corner_safe=cs)
+                    for k in (0, 1):
+                        bl.add_tomogram(stubs.ImgStub((200, 200, 200), root=f"tomo{k}"), c03._molecules(MC, [f"m{k}a", f"m{k}b"]), image_id=k)
+                    derived = bl.replace(molecules=bl.molecules.subset([3, 0, 1]))
+                    out = {"iter": list(bl.loaders), "getitem": [bl.loaders[0], bl.loaders[1]], "derived-iter": list(derived.loaders), "derived-batch": [derived]}
+                    return out
+
+                for pth in explore(run, assumptions=hyps, max_paths=10):
+                    if not pth.ok:
+                        ok, det = replay_batch_options({})
+                        rec.fact(f"{tag}/runs", False, key="C02/batch-options/raises", detail={"exc": repr(pth.exc)[:300], **det}, reproduced=ok)
+                        continue
+                    for how, lds in pth.result.items():
+                        for i, ld in enumerate(lds):
+                            okc = ld.order == order and tuple(ld.output_shape) == (4, 5, 6) and bool(ld.corner_safe) == cs
+                            rec.fact(f"{tag}/{how}[{i}]/order,output_shape,corner_safe", okc, key="C02/batch-options/propagation", detail={"order": ld.order, "output_shape": list(ld.output_shape), "corner_safe": bool(ld.corner_safe)},
+                                     reproduced=True if okc else replay_batch_options({})[0])
+                            rec.query(f"{tag}/{how}[{i}]/scale", hyps + [pth.condition()], zr(ld.scale) == scale.e, key="C02/batch-options/scale", replay=replay_batch_options, twin=False)
+
+
 def sec_conformance(rec):
     """NdiStub contract vs the real scipy.ndimage (concrete): out[o] = interp(input, M @ (o,1))."""
     from scipy import ndimage as ndi
@@ -432,7 +503,7 @@ def sec_conformance(rec):
 
 def sections(tier):
     S = [("slicepad", "checks.c02", "sec_slicepad", {}), ("conformance", "checks.c02", "sec_conformance", {}),
-         ("plumbing2", "checks.c02", "sec_plumbing2", {})]
+         ("plumbing2", "checks.c02", "sec_plumbing2", {}), ("batch-options", "checks.c02", "sec_batch_options", {})]
     for order in (0, 1, 3):
         S.append((f"sampling-o{order}", "checks.c02", "sec_sampling", {"order": order, "corner_safe": False}))
         # corner_safe: rule with free R and symbolic shape, per free axis
